@@ -465,13 +465,16 @@ def _strategy():
             elif k == 19 and allp:
                 p = pick(allp)
                 if i(0, 1):
-                    stmts.append(['prop-to-computed', f"alter type {t} alter property {p} using ('c')"])
+                    expr = pick(["'c'", "'c'", "{'x', 'y'}", "<str>{}", "(select {'a', 'b'} limit 1)"])
+                    stmts.append(['prop-to-computed', f"alter type {t} alter property {p} using ({expr})"])
                 else:
                     stmts.append(['prop-to-stored', f'alter type {t} alter property {p} reset expression'])
             elif k == 20 and alll:
                 ln = pick(alll)
                 if i(0, 1):
-                    stmts.append(['link-to-computed', f'alter type {t} alter link {ln} using ((select {pick(live)}))'])
+                    tgt = pick(live)
+                    expr = pick([f'(select {tgt})', f'(select {tgt} limit 1)', f'(select detached {tgt} filter false)'])
+                    stmts.append(['link-to-computed', f'alter type {t} alter link {ln} using ({expr})'])
                 else:
                     stmts.append(['link-to-stored', f'alter type {t} alter link {ln} reset expression'])
             elif k == 21:
